@@ -78,7 +78,15 @@ func H_C16_entry() {
 	n := vLen("nattrs", 3)
 	m := map[string][]string{}
 	names := []string{"cn", "CN", "mail"} // two names differ only by case
-	vals := [][]string{{v1, v2}, {v3}, {}}
+	// the third attribute: no value, or one value of two arbitrary bytes (NUL and
+	// other binary content included, as in objectSid / jpegPhoto values)
+	b0, b1 := vU64("bin0"), vU64("bin1")
+	vAssume(b0 < 256 && b1 < 256)
+	third := []string{}
+	if vBool("binaryValue") {
+		third = []string{string([]byte{byte(b0), byte(b1)})}
+	}
+	vals := [][]string{{v1, v2}, {v3}, third}
 	for i := 0; i < n; i++ {
 		m[names[i]] = vals[i]
 	}
